@@ -13,7 +13,33 @@ from ..gen import jsonvals, keys as gkeys, metadata as gmd
 from ..refs import canonjson, ed25519
 
 
-N_BRANCHES = 23
+N_BRANCHES = 25
+
+
+def _flags(f):
+    """names of keyword parameters of f that default to False (options a caller may switch on)"""
+    import inspect
+
+    try:
+        return [p.name for p in inspect.signature(f).parameters.values() if p.default is False]
+    except (TypeError, ValueError):
+        return []
+
+
+OPTIONS_SEEN = set()
+
+
+def _with_each_option_on(f, *a, **k):
+    """call f once per switchable option, with that option on (outcomes ignored like all noise): a call made with an option
+    on must leave nothing behind for later calls made without it"""
+    import copy
+
+    for name in _flags(f):
+        OPTIONS_SEEN.add("%s(%s=True)" % (getattr(f, "__name__", "?"), name))
+        try:
+            f(*copy.deepcopy(a), **dict(copy.deepcopy(k), **{name: True}))
+        except Exception:  # noqa: BLE001
+            pass
 
 
 def provoke(lib, rng, scratch=None):
@@ -133,6 +159,69 @@ def tick(lib, rng, scratch=None, n=None, force=None):
                     lib.cli.cli(["modify-metadata", fn])
                 finally:
                     builtins.input = real_input
+            elif what == 23 and scratch and getattr(lib, "cli", None) is not None:
+                # sign-artifacts runs (in this process) that end early: the key file is missing / a directory / binary / empty /
+                # holds two lines, the repodata file is missing
+                rp = os.path.join(scratch, "noise-cli-repodata.json")
+                with open(rp, "w") as f:
+                    f.write('{"packages": {"a-1-0.tar.bz2": {"name": "a"}}}')
+                binf = os.path.join(scratch, "noise-binary.pri")
+                with open(binf, "wb") as f:
+                    f.write(bytes(range(200, 232)))
+                two = os.path.join(scratch, "noise-two-lines.key")
+                with open(two, "w") as f:
+                    f.write(k.seed.hex() + "\n# note\n")
+                empty = os.path.join(scratch, "noise-empty.key")
+                open(empty, "w").close()
+                for kf in (os.path.join(scratch, "no-such-keyfile"), scratch, binf, two, empty):
+                    try:
+                        lib.cli.cli(["sign-artifacts", rp, kf])
+                    except BaseException as e:  # noqa: BLE001
+                        if isinstance(e, (KeyboardInterrupt, MemoryError)):
+                            raise
+                try:
+                    lib.cli.cli(["sign-artifacts", os.path.join(scratch, "no-such-repodata.json"), two])
+                except BaseException as e:  # noqa: BLE001
+                    if isinstance(e, (KeyboardInterrupt, MemoryError)):
+                        raise
+            elif what == 24:
+                # the same kinds of calls, each made once per switchable option (keyword defaulting to False) with that option on
+                env = S.wrap_as_signable({"a": [1, 2], "algorithm": "x"})
+                pk = C.PrivateKey.from_bytes(k.seed)
+                _with_each_option_on(S.sign_signable, env, pk)
+                S.sign_signable(env, pk)
+                _with_each_option_on(A.verify_signable, env, [k.hex], 1)
+                ent = {"signature": "ab" * 64}
+                gent = {"signature": "ab" * 64, "other_headers": "04ff"}
+                for f in (C.is_signature, C.is_gpg_signature, C.checkformat_signature, C.checkformat_gpg_signature, C.checkformat_any_signature):
+                    _with_each_option_on(f, ent)
+                    _with_each_option_on(f, gent)
+                _with_each_option_on(C.is_signable, env)
+                _with_each_option_on(C.checkformat_signable, env)
+                _with_each_option_on(C.canonserialize, {"b": 1, "a": 2})
+                _with_each_option_on(S.wrap_as_signable, {"b": 1})
+                _with_each_option_on(C.checkformat_utc_isoformat, "2021-01-01T00:00:00Z")
+                _with_each_option_on(C.checkformat_hex_key, k.hex)
+                _with_each_option_on(C.is_hex_key, k.hex)
+                md = gmd.root_md(1, [k], 1, [gkeys.key(13)], 1)
+                renv = gmd.sign_env(gmd.envelope(md), [k], True, rng)
+                _with_each_option_on(C.checkformat_delegating_metadata, renv)
+                md2 = gmd.root_md(2, [k], 1, [gkeys.key(13)], 1)
+                renv2 = gmd.sign_env(gmd.envelope(md2), [k], True, rng)
+                _with_each_option_on(A.verify_root, renv, renv2)
+                km = gmd.envelope(gmd.delegating("key_mgr", {"pkg_mgr": gmd.delegation([k], 1)}))
+                _with_each_option_on(A.verify_delegation, "pkg_mgr", env, km)
+                _with_each_option_on(M.build_delegating_metadata, "key_mgr", {"pkg_mgr": {"pubkeys": [k.hex], "threshold": 1}})
+                _with_each_option_on(M.build_root_metadata, 1, [k.hex], 1, [k.hex], 1)
+                if scratch:
+                    fn = os.path.join(scratch, "noise-options.json")
+                    _with_each_option_on(C.write_metadata_to_file, renv, fn)
+                    C.write_metadata_to_file(renv, fn)
+                    _with_each_option_on(C.load_metadata_from_file, fn)
+                    rp = os.path.join(scratch, "noise-options-repodata.json")
+                    with open(rp, "w") as f:
+                        f.write('{"packages": {"a-1-0.tar.bz2": {"name": "a"}}}')
+                    _with_each_option_on(S.sign_all_in_repodata, rp, k.seed.hex())
             elif what == 22:
                 import gc
 
